@@ -2,7 +2,7 @@ import Qv.Proofs.PcboNe
 /-!
 # C02: semantics of `add_constraint_ne_zero`
 -/
-namespace Qv
+namespace Qv.PcboP
 
 theorem isBool_update {x : Var → Rat} (hx : IsBool x) (a : Var) (c : Rat) (hc : c = 0 ∨ c = 1) :
     IsBool (fun i => if i = a then c else x i) := by
@@ -153,4 +153,4 @@ theorem addNeZero_sem {st : St} {P : Poly} {lam : Rat} {lt : Bool} {b : Option R
       rw [h0]
       rcases hx (ANC + st.anc) with ha | ha <;> rw [ha] <;> intro he <;> linarith
 
-end Qv
+end Qv.PcboP
